@@ -1,20 +1,26 @@
-"""Source -> Lean translation of small pure functions, re-proved equal to the hand model on every run.
+"""Source -> Lean translation of small pure functions, re-proved equal to the hand model on every run — SCOPED per check.
 
     from checks import pure_fns
-    pure_fns.run(ck)            # inside a check's main(ck), before ck.finish(...)
+    pure_fns.run(ck)                      # first statement of a check's main(ck); groups = RELEVANT[ck.prop]
+    pure_fns.run(ck, groups=["Diag"])     # explicit list of groups
 
-adds these obligations to the calling check:
-  1. `translate_pure.py regenerated PureFns.lean …`   tools/translate_pure.py parsed every whitelisted function /
-     expression of `checks.common.REPO` (fail closed: an unknown shape names the function and the construct) and
-     wrote lean/QmcModel/Generated/PureFns.lean (only if its content changed);
-  2. `lake build QmcProofs.PureFnsAgree …`            the agreement theorems still hold for the regenerated file
-     (the detail names the theorems that broke, i.e. the Rust functions that no longer match the hand model);
-  3. `every generated definition is the subject of an agreement theorem`;
-  4. one `theorem Qmc.PureFnsAgree.<name>` obligation per agreement theorem (#print axioms, forbidden-token scan;
-     audit file `.audit/<Cxx>-purefns.lean`).
-When REPO is a scratch tree (tools/mutcheck.sh) the generated file of the real /repo is put back at the end (and the
-Lean build brought back in line with it), so a scratch run leaves nothing foreign behind.  A process-wide file lock
-serialises concurrent callers (several checks call this).
+tools/translate_pure.py translates a whitelist of small pure Rust functions / expressions of `checks.common.REPO` into
+lean/QmcModel/Generated/PureFns.lean.  Every generated definition belongs to ONE group (translate_pure.DEF_GROUP) and every
+group has ONE agreement module lean/QmcProofs/PureFnsAgree/<Group>.lean proving the hand models equal to the group's
+definitions.  A translated function that stops agreeing (or leaves the translator's whitelist) therefore takes down only its
+own group, and a check builds / audits / reports ONLY the groups relevant to its property (table RELEVANT below, closed
+under DEPS), so a check raises an alarm only for its own property.
+
+Obligations added to the calling check (G = its groups):
+  1. `translate_pure.py translated every whitelisted function of groups G`   (sites that failed closed in other groups go to
+     ck.notes; the generated file is still written with everything that did translate);
+  2. one `lake build QmcProofs.PureFnsAgree.<g>` obligation per g in G (the detail names the theorems that broke);
+  3. `every generated definition of groups G is the subject of an agreement theorem of its group, and no group module refers
+     to a definition of a foreign group`;
+  4. one `theorem Qmc.PureFnsAgree[Cluster].<name>` obligation per agreement theorem of the groups that built (#print axioms,
+     forbidden-token scan over the modules' import closure; thorough tier: leanchecker on the modules).
+When REPO is a scratch tree (tools/mutcheck.sh) the generated file of the real /repo is put back at the end (and the Lean
+build of the used groups brought back in line with it).  The `purefns` file lock serialises concurrent callers.
 """
 import os
 import re
@@ -25,66 +31,91 @@ from checks import common
 sys.path.insert(0, os.path.join(common.VERIF, "tools"))
 import translate_pure  # noqa: E402
 
-MODULE = "QmcProofs.PureFnsAgree"
 GENERATED = os.path.join(common.LEAN, "QmcModel", "Generated", "PureFns.lean")
-AGREE = os.path.join(common.LEAN, "QmcProofs", "PureFnsAgree.lean")
-# historical: QmcModel/Cluster.lean could not be imported together with QmcModel/Interaction.lean (both declared Qmc.absR;
-# resolved, design_notes/Cleanup.md): own file
-MODULE_C = "QmcProofs.PureFnsAgreeCluster"
-AGREE_C = os.path.join(common.LEAN, "QmcProofs", "PureFnsAgreeCluster.lean")
+MODPREFIX = "QmcProofs.PureFnsAgree."
+# kept for old references: the umbrella module imports only the Prelude group (it is listed in some LEAN_TARGETS and must
+# never go red because of an unrelated group)
+MODULE = "QmcProofs.PureFnsAgree"
 
-THEOREMS = [
-    # fixed prelude of the translation
-    "fabs_agree", "fabs_agree_rvb", "fabs_agree_isingHam", "EPSILON_agree", "EPSILON_agree_rvb", "powi_agree",
-    # Ising matrix elements (qmc_ising.rs)
-    "two_site_hamiltonian_agree", "two_site_hamiltonian_agree_pairs", "transverse_hamiltonian_agree",
-    "longitudinal_hamiltonian_agree", "two_site_hamiltonian_agree_tempering", "two_site_hamiltonian_agree_rvb",
-    "longitudinal_hamiltonian_agree_rvb", "two_site_hamiltonian_agree_isingHam",
-    "longitudinal_hamiltonian_agree_isingHam", "longitudinal_hamiltonian_agree_tempering_diag",
-    # cluster.rs
-    "is_valid_cluster_edge_agree",
-    # cutoff rule, three sites
-    "cutoff_rule_single_diagonal_step_agree", "cutoff_rule_timestep_agree", "cutoff_rule_diagonal_update_agree",
-    # energy estimator, both samplers
-    "get_energy_for_average_n_ising_agree", "get_energy_for_average_n_generic_agree",
-    "get_energy_for_average_n_generic_agree_gqmc", "get_energy_for_average_n_agree_stepper",
-    # offset, bond count, field guard
-    "total_energy_offset_agree", "field_guard_agree", "field_guard_agree_tempering",
-    "num_bonds_single_diagonal_step_agree", "num_bonds_single_rvb_sweep_agree", "num_bonds_set_enable_heatbath_agree",
-    "num_bonds_timestep_agree", "num_bonds_agree_tempering", "num_bonds_agree_isingHam",
-    # Metropolis diagonal update
-    "diag_insert_prob_agree", "diag_remove_prob_agree", "diag_insert_accept_agree", "diag_insert_accept_draws_agree",
-    "diag_remove_accept_agree", "diag_remove_accept_draws_agree", "metropolisSlot_none_agree", "metropolisSlot_diag_agree",
-    # heat bath gates
-    "hb_remove_prob_agree", "hb_insert_prob_agree", "heatBathSlot_none_agree", "heatBathSlot_diag_agree",
-    # replica swap
-    "swap_on_chunks_agree", "swap_on_chunks_agree_dec",
-    # bond numbering
-    "hamiltonian_dispatch_agree", "bonds_fn_timestep_agree", "bonds_fn_single_diagonal_step_agree",
-    "bonds_fn_single_rvb_sweep_agree", "bonds_fn_set_enable_heatbath_agree",
-    # Ising -> generic conversion matrices
-    "into_qmc_edge_matrix_agree", "into_qmc_transverse_matrix_agree", "into_qmc_field_matrix_agree",
-    # interaction size rule
-    "mat_var_size_rule_agree",
-    # replicated closures (the translator requires the copies identical; majority vote names the deviating copy)
-    "cluster_weight_timestep_agree", "cluster_weight_single_cluster_step_agree", "ising_ratio_single_rvb_sweep_agree",
-    "ising_ratio_timestep_agree", "cluster_weight_agree_samplerCore", "ising_ratio_agree_rvb_edge",
-    "ising_ratio_agree_rvb_transverse", "ising_ratio_agree_rvb_field", "rvb_edge_weight_agree_rvb",
-    "rvb_edge_weight_timestep_nofield_agree", "rvb_edge_weight_single_rvb_sweep_field_agree",
-    "rvb_edge_weight_single_rvb_sweep_nofield_agree", "cluster_flip_prob_agree", "free_refresh_prob_agree",
-    "cluster_flip_prob_agree_isingTimestep", "cluster_flip_prob_agree_genericTimestep",
-    "free_refresh_prob_agree_samplerCore", "free_refresh_prob_agree_generic", "steps_to_run_timestep_agree",
-    "steps_to_run_single_rvb_sweep_agree", "h_closure_timestep_agree", "h_closure_single_diagonal_step_agree",
-    "h_closure_single_rvb_sweep_agree", "h_closure_set_enable_heatbath_agree", "h_closure_agree_isingHam",
-]
+# group -> groups whose DEFINITIONS its agreement module also mentions (the hand model's copy is proved equal to them)
+DEPS = {"Tempering": ["IsingHam"], "Rvb": ["IsingHam"], "ClusterIsing": ["IsingHam"]}
 
-THEOREMS_C = [
-    "fabs_agree", "isingFrozen_agree", "isingFrozen_agree_single_cluster_step", "freeRefresh_agree", "twoSiteW_agree",
-    "transverseW_agree", "longitudinalW_agree_diag", "bonds_fn_agree_isingClusterHam",
-]
+# property -> groups (Prelude and DEPS are added automatically); one-line reasons in design_notes/Translator.md
+RELEVANT = {
+    "C01": ["IsingHam", "Cluster", "ClusterIsing", "RefreshIsing", "EnergyIsing", "Diag", "HeatBathIsing"],
+    "C02": ["IsingHam", "HeatBath", "HeatBathIsing"],
+    "C03": ["IsingHam", "Rvb"],
+    "C04": ["Cluster", "RefreshGeneric", "EnergyGeneric", "Diag", "HeatBath"],
+    "C05": ["IsingHam", "Tempering"],
+    "C08": ["Diag", "HeatBath"],
+    "C09": ["IsingHam", "Cluster", "ClusterIsing", "RefreshIsing"],
+    "C10": ["IsingHam", "Tempering"],
+    "C12": ["Cutoff"],
+    "C15": ["IsingHam", "Convert", "EnergyIsing", "EnergyGeneric"],
+    "C16": ["Size"],
+    "C17": ["EnergyIsing", "EnergyGeneric"],
+}
 
-TRUSTED = ("tools/translate_pure.py (locates a whitelist of small pure Rust functions by regex, parses them with a ~15-construct "
-           "typed expression grammar, emits Lean; fails closed on anything else; f64 read as exact Rat, usize as Nat)")
+# agreement theorems per group: namespace Qmc.PureFnsAgree
+GROUP_THEOREMS = {
+    "Prelude": ["fabs_agree", "fabs_agree_rvb", "fabs_agree_isingHam", "EPSILON_agree", "EPSILON_agree_rvb", "powi_agree", "bondsFnRef_agree"],
+    "IsingHam": ["two_site_hamiltonian_agree", "two_site_hamiltonian_agree_pairs", "transverse_hamiltonian_agree", "longitudinal_hamiltonian_agree",
+                 "two_site_hamiltonian_agree_isingHam", "longitudinal_hamiltonian_agree_isingHam", "total_energy_offset_agree", "field_guard_agree",
+                 "num_bonds_single_diagonal_step_agree", "num_bonds_timestep_agree", "num_bonds_agree_isingHam", "hamiltonian_dispatch_agree",
+                 "bonds_fn_timestep_eq_ref", "bonds_fn_timestep_agree", "bonds_fn_single_diagonal_step_agree", "h_closure_timestep_agree",
+                 "h_closure_single_diagonal_step_agree", "h_closure_agree_isingHam"],
+    "Tempering": ["two_site_hamiltonian_agree_tempering", "longitudinal_hamiltonian_agree_tempering",
+                  "field_guard_agree_tempering", "num_bonds_agree_tempering", "swap_on_chunks_agree", "swap_on_chunks_agree_dec"],
+    "Rvb": ["two_site_hamiltonian_agree_rvb", "longitudinal_hamiltonian_agree_rvb", "num_bonds_single_rvb_sweep_agree", "bonds_fn_single_rvb_sweep_agree",
+            "h_closure_single_rvb_sweep_agree", "ising_ratio_timestep_agree", "ising_ratio_single_rvb_sweep_agree", "ising_ratio_agree_rvb_edge",
+            "ising_ratio_agree_rvb_transverse", "ising_ratio_agree_rvb_field", "rvb_edge_weight_agree_rvb", "rvb_edge_weight_timestep_nofield_agree",
+            "rvb_edge_weight_single_rvb_sweep_field_agree", "rvb_edge_weight_single_rvb_sweep_nofield_agree", "steps_to_run_timestep_agree",
+            "steps_to_run_single_rvb_sweep_agree"],
+    "Cluster": ["is_valid_cluster_edge_agree", "cluster_flip_prob_cluster_update_sym_agree", "cluster_flip_prob_agree_genericTimestep"],
+    "ClusterIsing": ["cluster_weight_timestep_agree", "cluster_weight_single_cluster_step_agree", "cluster_weight_agree_samplerCore", "cluster_flip_prob_agree",
+                     "cluster_flip_prob_agree_isingTimestep"],
+    "RefreshIsing": ["free_refresh_prob_agree", "free_refresh_prob_agree_samplerCore"],
+    "RefreshGeneric": ["free_refresh_prob_flip_free_bits_agree", "free_refresh_prob_agree_generic"],
+    "Cutoff": ["cutoff_rule_single_diagonal_step_agree", "cutoff_rule_timestep_agree", "cutoff_rule_diagonal_update_agree"],
+    "EnergyIsing": ["get_energy_for_average_n_ising_agree", "get_energy_for_average_n_agree_stepper"],
+    "EnergyGeneric": ["get_energy_for_average_n_generic_agree", "get_energy_for_average_n_generic_agree_gqmc", "get_energy_for_average_n_generic_agree_stepper"],
+    "Diag": ["diag_insert_prob_agree", "diag_remove_prob_agree", "diag_insert_accept_agree", "diag_insert_accept_draws_agree", "diag_remove_accept_agree",
+             "diag_remove_accept_draws_agree", "metropolisSlot_none_agree", "metropolisSlot_diag_agree"],
+    "HeatBath": ["hb_remove_prob_agree", "hb_insert_prob_agree", "heatBathSlot_none_agree", "heatBathSlot_diag_agree"],
+    "HeatBathIsing": ["num_bonds_set_enable_heatbath_agree", "bonds_fn_set_enable_heatbath_agree", "h_closure_set_enable_heatbath_agree"],
+    "Convert": ["into_qmc_edge_matrix_agree", "into_qmc_transverse_matrix_agree", "into_qmc_field_matrix_agree"],
+    "Size": ["mat_var_size_rule_agree"],
+}
+# … namespace Qmc.PureFnsAgreeCluster (the theorems about QmcModel/Cluster.lean keep their old namespace)
+GROUP_THEOREMS_C = {
+    "Prelude": ["fabs_agree"],
+    "ClusterIsing": ["isingFrozen_agree", "isingFrozen_agree_single_cluster_step", "twoSiteW_agree", "transverseW_agree", "longitudinalW_agree",
+                     "bonds_fn_agree_isingClusterHam"],
+    "RefreshIsing": ["freeRefresh_agree"],
+}
+ALL_GROUPS = list(GROUP_THEOREMS)
+
+TRUSTED = ("tools/translate_pure.py (locates a whitelist of small pure Rust functions by regex, parses them with a ~20-construct "
+           "typed expression grammar, emits Lean; fails closed per group on anything else; f64 read as exact Rat, usize as Nat)")
+
+
+def groups_for(prop, groups=None):
+    """the groups a check looks at: explicit list, else RELEVANT[prop] (unknown property: all), + DEPS + Prelude"""
+    gs = list(groups) if groups is not None else list(RELEVANT.get(prop, ALL_GROUPS))
+    out = ["Prelude"]
+    todo = list(gs)
+    while todo:
+        g = todo.pop(0)
+        if g not in GROUP_THEOREMS:
+            raise ValueError("pure_fns: unknown group %r" % g)
+        if g not in out:
+            out.append(g)
+            todo += DEPS.get(g, [])
+    return out
+
+
+def module_path(g):
+    return os.path.join(common.LEAN, "QmcProofs", "PureFnsAgree", g + ".lean")
 
 
 def _theorem_at(lines, lineno):
@@ -109,71 +140,158 @@ def _theorem_at(lines, lineno):
     return best
 
 
-def broken_theorems(build_output):
+def broken_theorems(build_output, g):
+    path = module_path(g)
+    lines = open(path).read().splitlines() if os.path.exists(path) else []
     names = []
-    for path, tag in ((AGREE, ""), (AGREE_C, "Cluster")):
-        lines = open(path).read().splitlines() if os.path.exists(path) else []
-        for m in re.finditer(r"error:?\s*\S*PureFnsAgree%s\.lean:(\d+):\d+" % tag, build_output):
-            t = _theorem_at(lines, int(m.group(1)))
-            if t and (tag + ":" + t if tag else t) not in names:
-                names.append(tag + ":" + t if tag else t)
+    for m in re.finditer(r"error:?\s*\S*PureFnsAgree/%s\.lean:(\d+):\d+" % re.escape(g), build_output):
+        t = _theorem_at(lines, int(m.group(1)))
+        if t and t not in names:
+            names.append(t)
     return names
 
 
 def _lake(targets):
     with common.Lock("lake"):
-        return common.sh(["lake", "build"] + targets, cwd=common.LEAN, timeout=3000)
+        rc, out, err = common.sh(["lake", "build"] + targets, cwd=common.LEAN, timeout=3000)
+        if rc != 0 and "no such file or directory" in (out + err):
+            # transient: an UNLOCKED `lake build` of somebody else (a manual build, `lake build QmcAll`) was rewriting the same
+            # .olean while ours ran (seen once during parallel scratch runs); the build is idempotent, try once more
+            rc, out, err = common.sh(["lake", "build"] + targets, cwd=common.LEAN, timeout=3000)
+        return rc, out, err
 
 
-def run(ck):
-    """regenerate + re-prove + audit; returns True iff everything held"""
+def _failed_modules(text, gs):
+    """which of the group modules did not build (lake lists them as `- <module>` / marks them `✖ … Building <module>`)"""
+    bad = set()
+    for g in gs:
+        mod = MODPREFIX + g
+        if re.search(r"(?m)^- %s\s*$" % re.escape(mod), text) or re.search(r"✖ \[\d+/\d+\] (?:Building|Built|Running) %s\b" % re.escape(mod), text) \
+                or re.search(r"error:?\s*\S*PureFnsAgree/%s\.lean:" % re.escape(g), text):
+            bad.add(g)
+    return bad
+
+
+def _audit(ck, gs):
+    """#print axioms for every agreement theorem of the groups `gs` (all built): one obligation per theorem, one source scan"""
+    theorems = []
+    for g in gs:
+        theorems += ["Qmc.PureFnsAgree." + t for t in GROUP_THEOREMS[g]]
+        theorems += ["Qmc.PureFnsAgreeCluster." + t for t in GROUP_THEOREMS_C.get(g, [])]
+    os.makedirs(os.path.join(common.LEAN, ".audit"), exist_ok=True)
+    name = ck.prop + "-purefns"
+    path = os.path.join(common.LEAN, ".audit", name + ".lean")
+    with open(path, "w") as f:
+        for g in gs:
+            f.write("import %s%s\n" % (MODPREFIX, g))
+        for t in theorems:
+            f.write("#print axioms %s\n" % t)
+    ck.checker_cmds.append("cd /verif/lean && lake env lean .audit/%s.lean   # #print axioms for %d agreement theorems of groups %s" % (name, len(theorems), ",".join(gs)))
+    rc, out, err = common.sh(["lake", "env", "lean", path], cwd=common.LEAN, timeout=1800)
+    text = out + err
+    found = {}
+    for m in re.finditer(r"'([^']+)' depends on axioms: \[([^\]]*)\]", text, re.S):
+        found[m.group(1)] = set(a.strip() for a in m.group(2).replace("\n", " ").split(",") if a.strip())
+    for m in re.finditer(r"'([^']+)' does not depend on any axioms", text):
+        found[m.group(1)] = set()
+    for t in theorems:
+        if t not in found:
+            ck.oblige("theorem " + t, False, "not found / did not elaborate: " + text[-1500:])
+        else:
+            extra = found[t] - common.ALLOWED_AXIOMS
+            ck.oblige("theorem " + t, not extra, "axioms: " + ", ".join(sorted(found[t])))
+    files = []
+    for g in gs:
+        for f in ck.lean_closure(MODPREFIX + g):
+            if f not in files:
+                files.append(f)
+    ck.scan_sources(files)
+    if ck.tier == "thorough":
+        mods = [MODPREFIX + g for g in gs]
+        ck.checker_cmds.append("cd /verif/lean && lake env leanchecker " + " ".join(mods))
+        rc, out, err = common.sh(["lake", "env", "leanchecker"] + mods, cwd=common.LEAN, timeout=3000)
+        ck.oblige("leanchecker " + " ".join(mods), rc == 0, out + err)
+
+
+def completeness(gs):
+    """-> list of problems: a definition of a group in `gs` that its module does not mention / a module of `gs` that mentions
+    a definition of a group outside its own + DEPS"""
+    bad = []
+    group_of = dict(translate_pure.DEF_GROUP)
+    for d in translate_pure.PRELUDE_DEFS:
+        group_of[d] = "Prelude"
+    for g in gs:
+        path = module_path(g)
+        if not os.path.exists(path):
+            bad.append("module of group %s missing" % g)
+            continue
+        text = common.strip_lean_comments(open(path).read())
+        used = set(re.findall(r"\bGen\.(\w+)", text))
+        for d, dg in group_of.items():
+            if dg == g and d not in used:
+                bad.append("%s (group %s) has no agreement theorem" % (d, g))
+        allowed = set([g, "Prelude"] + DEPS.get(g, []))
+        for d in sorted(used):
+            if d not in group_of:
+                bad.append("%s.lean mentions unknown Gen.%s" % (g, d))
+            elif group_of[d] not in allowed:
+                bad.append("%s.lean mentions Gen.%s of foreign group %s" % (g, d, group_of[d]))
+    return bad
+
+
+def run(ck, groups=None):
+    """regenerate + re-prove + audit the groups relevant to this check; returns True iff everything held"""
     n0 = len([o for o in ck.obligations if not o[1]])
+    gs = groups_for(ck.prop, groups)
+    label = ",".join(gs)
     with common.Lock("purefns"):
         scratch = os.path.realpath(common.REPO) != "/repo"
         saved = open(GENERATED).read() if (scratch and os.path.exists(GENERATED)) else None
         try:
-            # 1. translate (fail closed)
+            # 1. translate (fail closed per group)
             ck.checker_cmds.append("python3 /verif/tools/translate_pure.py --repo %s" % common.REPO)
-            rc, msg = translate_pure.regenerate(common.REPO, GENERATED)
-            ck.oblige("translate_pure.py regenerated PureFns.lean (every whitelisted pure function of the source parsed; fail closed otherwise)", rc == 0, msg)
-            ck.notes.append(msg)
+            rc, msg, failures = translate_pure.regenerate(common.REPO, GENERATED)
+            mine = [f for f in failures if set(f["groups"]) & set(gs)]
+            other = [f for f in failures if not (set(f["groups"]) & set(gs))]
+            detail = " || ".join("[%s] %s: %s" % (",".join(f["groups"]), f["site"], f["what"]) for f in mine)
+            ck.oblige("translate_pure.py translated every whitelisted pure function of groups %s (fail closed otherwise)" % label,
+                      rc in (0, 2) and not mine, ("translate_pure: FAIL-CLOSED: " + detail) if mine else (msg if rc not in (0, 2) else ""))
+            ck.notes.append("pure_fns groups for %s: %s; %s" % (ck.prop, label, msg.split(";")[0]))
+            for f in other:
+                ck.notes.append("pure_fns: a translated function of an unrelated group failed closed (not an obligation of this check): [%s] %s: %s"
+                                % (",".join(f["groups"]), f["site"], f["what"][:300]))
             if TRUSTED not in ck.extra_trusted:
                 ck.extra_trusted.append(TRUSTED)
-            if rc != 0:
-                ck.oblige("agreement theorems of %s (not re-checked: the translator failed closed)" % MODULE, False, msg)
-                return False
-            # 2. re-prove
-            ck.checker_cmds.append("cd /verif/lean && lake build %s %s" % (MODULE, MODULE_C))
-            brc, out, err = _lake([MODULE, MODULE_C])
+            # 2. re-prove the relevant groups (one lake call; per-group obligations)
+            mods = [MODPREFIX + g for g in gs]
+            ck.checker_cmds.append("cd /verif/lean && lake build " + " ".join(mods))
+            brc, out, err = _lake(mods)
             text = out + err
-            if brc != 0:
-                names = broken_theorems(text)
-                errs = [l for l in text.splitlines() if "error" in l][:6]
-                detail = "hand model and translated Rust source no longer agree: broken theorem(s) %s :: %s :: %s" % (
-                    ", ".join(names) or "<none located>", " | ".join(errs), text[-1200:])
-            else:
-                detail = ""
-            ck.oblige("lake build %s %s (hand model == translated Rust source, all arguments)" % (MODULE, MODULE_C), brc == 0, detail)
-            if brc != 0:
-                return False
-            # 3. completeness: every generated definition occurs in the agreement file
-            gen = re.findall(r"^def\s+(\w+)", open(GENERATED).read(), re.M)
-            agree = common.strip_lean_comments(open(AGREE).read()) + common.strip_lean_comments(open(AGREE_C).read())
-            missing = [d for d in gen if not re.search(r"\bGen\.%s\b" % re.escape(d), agree)]
-            ck.oblige("every generated definition (%d) is the subject of an agreement theorem" % len(gen), not missing, ("not covered: " + ", ".join(missing)) if missing else "")
-            # 4. audit
-            save = ck.prop
-            ck.prop = save + "-purefns"
-            try:
-                ck.audit(MODULE, ["Qmc.PureFnsAgree." + t for t in THEOREMS])
-                ck.prop = save + "-purefnsc"
-                ck.audit(MODULE_C, ["Qmc.PureFnsAgreeCluster." + t for t in THEOREMS_C])
-            finally:
-                ck.prop = save
+            bad = _failed_modules(text, gs) if brc != 0 else set()
+            if brc != 0 and not bad:
+                bad = set(gs)      # could not attribute the failure: fail closed for all of this check's groups
+            built = []
+            for g in gs:
+                if g in bad:
+                    names = broken_theorems(text, g)
+                    errs = [l for l in text.splitlines() if "error" in l and ("PureFnsAgree/%s.lean" % g) in l][:6]
+                    d = "hand model and translated Rust source no longer agree: broken theorem(s) %s :: %s :: %s" % (
+                        ", ".join(names) or "<none located>", " | ".join(errs), text[-800:])
+                else:
+                    d = ""
+                    built.append(g)
+                ck.oblige("lake build %s%s (hand model == translated Rust source, all arguments)" % (MODPREFIX, g), g not in bad, d)
+            # 3. completeness / no foreign references, for the relevant groups
+            probs = completeness(gs)
+            # a definition that is missing only because its site failed closed is already reported by obligation 1
+            ck.oblige("every generated definition of groups %s is the subject of an agreement theorem of its own group" % label, not probs, "; ".join(probs))
+            # 4. audit the groups that built
+            if built:
+                _audit(ck, built)
         finally:
             if saved is not None and open(GENERATED).read() != saved:
                 # mutation experiment on a scratch tree: put the file generated from /repo back, and the build with it
                 with open(GENERATED, "w") as f:
                     f.write(saved)
-                _lake([MODULE, MODULE_C])
+                _lake([MODPREFIX + g for g in gs])
     return len([o for o in ck.obligations if not o[1]]) == n0
